@@ -373,6 +373,37 @@ pub fn run(id: &str) {
             let all = s.confirm(full).is_some();
             verdict(id, empty || !all, &format!("empty-proof-confirms={} unanimous-proof-confirms={}", empty, all));
         }
+        // F21: stakes adding up to 2^128 or more: the plain u128 sums in votes/total_votes overflowed (panic with
+        // overflow checks; wrapped without them, letting a sliver of the stake confirm)
+        "F21" => {
+            let ks: Vec<_> = (0..3).map(|i| p.wallet.keys[i].pk).collect();
+            let mk = |amts: [u128; 3]| FabSpec {
+                network: net, height: 10, fee_pool: 0, fee_multiplier: 100, dosc_speed: 1_000_000, coins: vec![],
+                pools: vec![(PoolKey::new(Denom::Mel, Denom::Sym), pool(1 << 30, 1 << 30, 1 << 30)), (PoolKey::new(Denom::Mel, Denom::Erg), pool(1 << 30, 1 << 30, 1 << 30))],
+                stakes: (0..3).map(|i| (TxHash(tmelcrypt::hash_single(&[b's', i as u8])), StakeDoc { pubkey: ks[i], e_start: 0, e_post_end: 5, syms_staked: CoinValue(amts[i]) })).collect(),
+                history: vec![(9, 1_000_000)],
+            };
+            let (big, _) = p.w.fabricate(&mk([1 << 127, 1 << 127, 1]));
+            let sliver = {
+                let mut m = BTreeMap::new();
+                m.insert(ks[2], p.wallet.keys[2].sk.sign(&big.header().hash().0).into());
+                m
+            };
+            let r = silent(|| big.confirm(sliver).is_some());
+            // control: ordinary totals still follow the two-thirds rule
+            let (small, _) = p.w.fabricate(&mk([10, 10, 1]));
+            let sign = |s: &melstf::SealedState<Cas>, who: &[usize]| {
+                let mut m = BTreeMap::new();
+                for i in who {
+                    m.insert(ks[*i], p.wallet.keys[*i].sk.sign(&s.header().hash().0).into());
+                }
+                m
+            };
+            let maj = small.confirm(sign(&small, &[0, 1])).is_some();
+            let mino = small.confirm(sign(&small, &[2])).is_some();
+            let bad = !matches!(r, Ok(false));
+            verdict(id, bad || !maj || mino, &format!("stakes 2^127+2^127+1, proof by the 1-stake key: {}; control 10+10+1: majority-confirms={} sliver-confirms={}", match r { Ok(true) => "CONFIRMED", Ok(false) => "not confirmed", Err(_) => "panicked" }, maj, mino));
+        }
         // swap into a pool emptied by a full withdrawal
         "F16" => {
             let (mut u, wc) = p.base(net, 10, 0);
@@ -430,6 +461,82 @@ pub fn run(id: &str) {
             let r = silent(|| u.clone().apply_tx(&tx));
             verdict(id, r.is_err(), &format!("apply_tx panicked={} result={:?}", r.is_err(), r.ok().map(|x| x.is_ok())));
         }
+        // novasmt alone: random inserts / deletes (empty value) of keys with shared nibble prefixes, against a map
+        "smt-fuzz" => {
+            use crate::rng::Rng;
+            use novasmt::Database;
+            let seed: u64 = std::env::var("VERIF_SEED").ok().and_then(|v| v.parse().ok()).unwrap_or(1);
+            let rounds: u64 = std::env::var("VERIF_ROUNDS").ok().and_then(|v| v.parse().ok()).unwrap_or(2000);
+            let mut r = Rng::new(seed);
+            let mut bad = None;
+            'outer: for round in 0..rounds {
+                let db = Database::new(Cas::default());
+                let mut tree = db.get_tree([0u8; 32]).unwrap();
+                let mut model: BTreeMap<[u8; 32], Vec<u8>> = BTreeMap::new();
+                // a pool of keys sharing prefixes of various lengths
+                let nkeys = 2 + r.below(14) as usize;
+                let mut keys: Vec<[u8; 32]> = vec![];
+                for _ in 0..nkeys {
+                    let mut k = [0u8; 32];
+                    for b in k.iter_mut() {
+                        *b = r.next() as u8;
+                    }
+                    if !keys.is_empty() && r.chance(2, 3) {
+                        let base = keys[r.below(keys.len() as u64) as usize];
+                        let share_nibbles = 1 + r.below(6) as usize;
+                        for i in 0..share_nibbles {
+                            let byte = i / 2;
+                            if i % 2 == 0 {
+                                k[byte] = (base[byte] & 0xf0) | (k[byte] & 0x0f);
+                            } else {
+                                k[byte] = base[byte];
+                            }
+                        }
+                    }
+                    keys.push(k);
+                }
+                let mut trace: Vec<String> = vec![];
+                let nops = 2 + r.below(40);
+                for _ in 0..nops {
+                    let k = keys[r.below(keys.len() as u64) as usize];
+                    let mut del = r.chance(2, 5);
+                    // VERIF_SMT_STRICT: never delete a key that is not bound (what a careful caller does)
+                    if del && std::env::var("VERIF_SMT_STRICT").is_ok() && !model.contains_key(&k) {
+                        del = false;
+                    }
+                    let v: Vec<u8> = if del { vec![] } else { vec![r.next() as u8; 1 + r.below(3) as usize] };
+                    trace.push(format!("{}:{}", hex::encode(&k[..4]), hex::encode(&v)));
+                    let res = std::panic::catch_unwind(std::panic::AssertUnwindSafe(|| tree.clone().with(k, &v)));
+                    match res {
+                        Ok(t) => tree = t,
+                        Err(_) => {
+                            bad = Some(format!("round {} panicked after ops {}", round, trace.join(",")));
+                            break 'outer;
+                        }
+                    }
+                    if del {
+                        model.remove(&k);
+                    } else {
+                        model.insert(k, v);
+                    }
+                    // count, contents, and history-independence of the root
+                    let cnt = std::panic::catch_unwind(std::panic::AssertUnwindSafe(|| tree.count())).unwrap_or(u64::MAX);
+                    if cnt != model.len() as u64 && std::env::var("VERIF_SMT_NOCOUNT").is_err() {
+                        bad = Some(format!("round {} count {} but {} entries after ops {}", round, cnt, model.len(), trace.join(",")));
+                        break 'outer;
+                    }
+                    let mut fresh = db.get_tree([0u8; 32]).unwrap();
+                    for (mk, mv) in model.iter() {
+                        fresh = fresh.with(*mk, mv);
+                    }
+                    if fresh.root_hash() != tree.root_hash() {
+                        bad = Some(format!("round {} root depends on history after ops {}", round, trace.join(",")));
+                        break 'outer;
+                    }
+                }
+            }
+            verdict(id, bad.is_some(), &bad.unwrap_or_else(|| format!("{} rounds consistent", rounds)));
+        }
         // two covenants of saturated weight: the plain sum overflows
         "F19" => {
             use OpCode::*;
@@ -470,6 +577,77 @@ pub fn run(id: &str) {
             let s = u.seal(None);
             let still = s.coin(dep.output_coinid(1)).is_some();
             verdict(id, ok && still, &format!("deposit-applied={} deposited-right-side-coin-still-unspent={}", ok, still));
+        }
+        // … and the way the legacy rule "removes" the second output — it deletes the coin id of the *rewritten* deposit,
+        // a key that is not in the tree — leaves the coin tree in a state novasmt never produces otherwise: the node
+        // counts no longer match the contents and the root is not the root of the same contents inserted afresh
+        "K-legacy-smt" => {
+            // control: on a network without the legacy rule the sealed coin tree is the tree of its contents
+            let mut res = vec![];
+            for network in [net, NetID::Testnet] {
+                let mut p = Pc::new();
+                let (mut u, wc) = p.base(network, 600, 0);
+                let a0 = p.key_addr(0);
+                let key = PoolKey::new(Denom::Mel, Denom::Sym);
+                let dep = p.tx(TxKind::LiqDeposit, &[wc[0].clone(), wc[4].clone()], vec![out(a0, 1000, Denom::Mel), out(a0, 1000, Denom::Sym), out(a0, 1_000_000_000_000 - 1000, Denom::Sym)], key.to_bytes().to_vec(), 0);
+                let ok = u.apply_tx(&dep).is_ok();
+                let before = u.verif_parts().coins.count();
+                let s = u.seal(None);
+                let after = s.raw_coins_smt().count();
+                // the same contents inserted into an empty tree
+                let db = novasmt::Database::new(Cas::default());
+                let mut fresh: CoinMapping<Cas> = CoinMapping::new(db.get_tree([0u8; 32]).unwrap());
+                let mut ids: Vec<CoinID> = wc.iter().map(|c| c.id).collect();
+                ids.extend((0..dep.outputs.len() as u8).map(|i| dep.output_coinid(i)));
+                let mut n = 0u64;
+                for id in ids {
+                    if let Some(c) = s.coin(id) {
+                        fresh.insert_coin(id, c, true);
+                        n += 1;
+                    }
+                }
+                let same_root = fresh.root_hash().0 == s.raw_coins_smt().root_hash();
+                res.push((ok, before, after, n, fresh.inner().count(), same_root));
+            }
+            let (c, l) = (res[0], res[1]);
+            verdict(id, c.0 && l.0 && c.5 && c.2 == c.4 && (!l.5 || l.2 != l.4),
+                &format!("control(net {:?}): applied={} tree-count before/after seal={}/{} rebuilt={} root-equals-rebuilt={}; legacy(testnet 600): applied={} tree-count before/after seal={}/{} rebuilt={} coins={} root-equals-rebuilt={}",
+                    net, c.0, c.1, c.2, c.4, c.5, l.0, l.1, l.2, l.4, l.3, l.5));
+        }
+        // K-liq-saturation: `PoolState::deposit` (melstructs) adds the liquidity it issues with a saturating add, but
+        // hands out the unsaturated amount: pool (2^120, 1) with 2^120 tokens issued; a deposit of (2^120, 2^120)
+        // issues u128::MAX more while the record stops at u128::MAX
+        "K-liq-saturation" => {
+            let (mut u, wc) = p.base(net, 10, 0);
+            let a0 = p.key_addr(0);
+            let big: u128 = 1 << 120;
+            let mint_a = p.tx(TxKind::Normal, &wc[0..1], vec![out(a0, big, Denom::NewCustom), out(a0, big, Denom::NewCustom), out(a0, 1, Denom::NewCustom)], vec![], 0);
+            let mint_b = p.tx(TxKind::Normal, &wc[1..2], vec![out(a0, big, Denom::NewCustom), out(a0, big, Denom::NewCustom), out(a0, 1, Denom::NewCustom)], vec![], 0);
+            let m_ok = u.apply_tx_batch(&[mint_a.clone(), mint_b.clone()]).is_ok();
+            let (ta, tb) = (Denom::Custom(mint_a.hash_nosigs()), Denom::Custom(mint_b.hash_nosigs()));
+            let key = PoolKey::new(ta, tb);
+            let (ml, mr) = if key.left() == ta { (&mint_a, &mint_b) } else { (&mint_b, &mint_a) };
+            let s1 = u.seal(None);
+            let mut u = s1.next_unsealed();
+            let d1 = p.tx(TxKind::LiqDeposit, &[wc[2].clone(), p.wcoin(ml, 0, 10), p.wcoin(mr, 2, 10)], vec![out(a0, big, key.left()), out(a0, 1, key.right())], key.to_bytes().to_vec(), 0);
+            let d1_ok = u.apply_tx(&d1).is_ok();
+            let s2 = u.seal(None);
+            let liqs1 = s2.pool(key).map(|p| p.liqs).unwrap_or(0);
+            let mut u = s2.next_unsealed();
+            let d2 = p.tx(TxKind::LiqDeposit, &[wc[3].clone(), p.wcoin(ml, 1, 10), p.wcoin(mr, 0, 10)], vec![out(a0, big, key.left()), out(a0, big, key.right())], key.to_bytes().to_vec(), 0);
+            let d2_ok = u.apply_tx(&d2).is_ok();
+            let s3 = silent(|| u.seal(None));
+            match s3 {
+                Ok(s3) => {
+                    let liq = key.liq_token_denom();
+                    let held: Vec<u128> = [d1.output_coinid(0), d2.output_coinid(0)].iter().filter_map(|c| s3.coin(*c)).filter(|c| c.coin_data.denom == liq).map(|c| c.coin_data.value.0).collect();
+                    let recorded = s3.pool(key).map(|p| p.liqs).unwrap_or(0);
+                    let total = held.iter().fold(0u128, |a, b| a.saturating_add(*b));
+                    let over = held.len() == 2 && held[0].checked_add(held[1]).map(|t| t > recorded).unwrap_or(true);
+                    verdict(id, m_ok && d1_ok && d2_ok && over, &format!("mints={} deposits={}/{} liqs-after-first={} tokens-held={:?} (sum saturates at {}) pool.liqs={}", m_ok, d1_ok, d2_ok, liqs1, held, total, recorded));
+                }
+                Err(_) => verdict(id, true, "seal panicked"),
+            }
         }
         // off mainnet a faucet can mint a pool's liquidity token
         "K-faucet-liq" => {
